@@ -125,15 +125,6 @@ class GridPost:
         kf = np.ones_like(s) if spacing_factor is None else np.asarray(spacing_factor, dtype=np.float64)
         ctx.close(f"{op}:spacing", s2, s * kf, 4 * EPS * s * kf, op=op, **info)
         if size is not None:
-            internal = np.array([float(k) for k in g._size], dtype=np.float64)
-            artefact = (np.abs(internal - np.round(internal)) < 1e-4 * np.maximum(internal, 1)) & (np.ceil(internal) != np.round(internal))
-            if artefact.any():
-                # the reported size of the *source* is ceil() of an internal float size one rounding error above an
-                # integer (e.g. 7.0000005 -> 8, produced by resample()); the statement does not say which of the two
-                # integers the derived grid continues from: only the sample positions are checked for such sources
-                ctx.count(f"{op}:source_size_is_rounding_artefact")
-                size = None
-        if size is not None:
             ctx.true(f"{op}:size", list(n2) == [float(k) for k in size], op=op, got=list(n2), want=list(size), source_size=list(n), source_internal_size=[float(k) for k in g._size], result_internal_size=[float(k) for k in r._size], offset=np.asarray(offset).tolist(), **info)
         offset = np.asarray(offset, dtype=np.float64)
         tol = world_tol(np.maximum(n, n2) + np.abs(offset), s, c, R)
